@@ -1,76 +1,360 @@
 """C17 -- pointers set for a test are restored after it; plugin actions nest properly.
 Scenario: a session  op*  with
-  op   ::= :inst <name> <kind 0 plain|1 SetPointerPlugin> | :en <id> | :dis <id> | :rm <name> | :reset
-         | :test <n> stmt*n <n> stmt*n <n> stmt*n                   (setup, body, teardown of one test run through the registry)
-  stmt ::= :set <loc> <val> | :wr <loc> <val> | :fail | :failc | :thr | :thrstd
-(plugin ids = creation ordinals).  Observation: per :test ":t failed npre ids npost ids pool[0..39]", per :rm/:reset ":c n ids"."""
+  op    ::= :inst <name> <kind 0 plain|1 SetPointerPlugin> | :act <name> <post 0|1> <n> act*n | :en <id> | :dis <id> | :rm <name> | :reset
+          | :test xtest                      (one test run through the registry)
+          | :run <k> xtest*k                 (one TestRegistry::runAllTests over k tests, then the chain)
+          | :runner <rep> <k> xtest*k        (CommandLineTestRunner::runAllTestsMain on that registry, -r<rep>, then the chain)
+  xtest ::= <n> xstmt*n <n> xstmt*n <n> xstmt*n                         (setup, body, teardown)
+  xstmt ::= :set <loc> <val> | :wr <loc> <val> | :fail | :failc | :thr | :thrstd | act
+  act   ::= :ai <name> <kind> | :ar <name> | :ae <id> | :ad <id> | :az   (install / remove by name / enable / disable / resetPlugins)
+(plugin ids = creation ordinals, the runner's own pointer plugin takes one; name a0 = DEF_PLUGIN_SET_POINTER; :act installs a
+recording plugin that performs its actions inside its pre (0) or post (1) action).
+Observation: per test ":t failed npre ids npost ids pool[0..39]" (ids without the plugins an action of that test named),
+per :rm/:reset and after :run/:runner ":c n ids"."""
+import os
+import re
 from vlib import tz
+import vlib
 ID = "C17"
 FLAVOURS = ["asan"]
 HARNESS_SRCS = ["harness/C17.cpp"]
 POOL = 40
-MAX_SET = 32   # only steers the generator towards the boundary; the model reads the value from the source
+RUNNER_NAME = 0xa0
+
+
+def _max_set():
+    """only steers the generator (boundary, which statements of a test are reached); the model reads the value from the source"""
+    try:
+        m = re.search(r"MAX_SET\s*=\s*(\d+)", open(os.path.join(vlib.REPO, "include/CppUTest/TestPlugin.h")).read())
+        return int(m.group(1))
+    except Exception:
+        return 32
+
+
+MAX_SET = _max_set()
 RULE = ("(a) pointer sessions: a SetPointerPlugin (+0-3 recording plugins, any enabled pattern) and 1-6 consecutive tests with 0-36 "
         "UT_PTR_SET per test (weights on 31/32/33 and beyond), ~30% repeated targets, direct writes in between, spread over setup/body/"
         "teardown, each phase ending normally / FAIL / longjmp-style fail / throw int / throw std::exception at any position; "
         "(b) chains: exhaustively every chain of 0-6 uniquely named plugins x removal of every position (and of an absent name), "
         "each followed by a test that logs the order; random chains of 0-7 plugins with every enabled pattern, duplicate names, "
-        "install/enable/disable/remove/reset sequences; (c) mixed sessions of both.  non-trivial = at least one test with a "
-        "redirection or a removal on a chain of >= 2 plugins")
-ASSUMPTIONS = ["a test that uses UT_PTR_SET runs with an enabled SetPointerPlugin installed (as CommandLineTestRunner arranges)",
+        "install/enable/disable/remove/reset sequences; (c) runs: chains of 1-5 plugins (recording, pointer, acting), one or two "
+        "runAllTests over 2-6 tests in which setup/body/teardown statements and the pre/post actions of acting plugins remove the head / "
+        "a middle / the last plugin / an absent name, install a new head (fresh, duplicate or the runner's name), enable, disable, reset, "
+        "remove or disable the acting plugin itself -- exhaustively: every chain of 1-4 plugins x removal of every position and "
+        "installation of a new head x from setup, body, teardown, a pre action, a post action, each followed by a further test; "
+        "(d) the command line runner: registries of 0-4 plugins named a0 (the runner's own plugin name) or otherwise, pointer plugin "
+        "or not, enabled or not -- exhaustively for 0-2 plugins -- then runAllTestsMain (-r1..3) over 1-4 tests with redirections "
+        "(incl. the limit), failures, throws and actions.  non-trivial = at least one test with a redirection, a removal on a chain "
+        "of >= 2 plugins, or an action inside a run")
+ASSUMPTIONS = ["a test that uses UT_PTR_SET runs with an enabled SetPointerPlugin installed (the user's own, or the one CommandLineTestRunner "
+               "installs) that no action of that very test names, and no SetPointerPlugin is constructed while that test runs",
                "plugin names differ from \"null\", the name of the chain's sentinel",
-               "plugin actions themselves neither fail nor throw; tests run in the current process; exceptions are not rethrown (default)"]
+               "the scripted plugin actions install / remove / enable / disable plugins but neither fail nor throw; an acting plugin is named "
+               "only by itself, in the last of its actions; plugin objects are installed once; tests run in the current process; "
+               "exceptions are not rethrown (the runner is given -e when a scripted test throws)",
+               "whether a plugin that an action of a test installs, removes, enables or disables sees that very test's pre / post action is "
+               "not fixed by the property: its log entries for that test are not observed (from the next test on they are)",
+               "after the runner, a user plugin that shares the runner's plugin name may or may not be left installed (not observed)"]
 CRASH_IS_VIOLATION = True
 ABORTS = [":fail", ":failc", ":thr", ":thrstd"]
+ACTS = {":ai": 2, ":ar": 1, ":ae": 1, ":ad": 1, ":az": 0}
+OPS = (":inst", ":act", ":en", ":dis", ":rm", ":reset", ":test", ":run", ":runner")
 
 
-class Chain:
-    """textbook chain used only to keep generated scenarios valid (a test with :set needs an enabled SetPointerPlugin)"""
+# ----------------------------------------------------------------------------- scenario syntax
+def parse_act(t, i):
+    k = t[i]
+    n = ACTS[k]
+    return tuple(t[i:i + 1 + n]), i + 1 + n
+
+
+def parse_xtest(t, i):
+    ph = []
+    for _ in range(3):
+        n = int(t[i], 16)
+        i += 1
+        st = []
+        for _ in range(n):
+            if t[i] in (":set", ":wr"):
+                st.append(tuple(t[i:i + 3]))
+                i += 3
+            elif t[i] in ABORTS:
+                st.append((t[i],))
+                i += 1
+            else:
+                a, i = parse_act(t, i)
+                st.append(a)
+        ph.append(st)
+    return ph, i
+
+
+def parse(s):
+    """scenario line -> list of ops (tuples); raises on malformed input"""
+    t = s.split()
+    i = 0
+    ops = []
+    while i < len(t):
+        k = t[i]
+        if k == ":inst":
+            ops.append(("inst", t[i + 1], t[i + 2]))
+            i += 3
+        elif k == ":act":
+            n = int(t[i + 3], 16)
+            j = i + 4
+            acts = []
+            for _ in range(n):
+                a, j = parse_act(t, j)
+                acts.append(a)
+            ops.append(("act", t[i + 1], t[i + 2], acts))
+            i = j
+        elif k in (":en", ":dis", ":rm"):
+            ops.append((k[1:], t[i + 1]))
+            i += 2
+        elif k == ":reset":
+            ops.append(("reset",))
+            i += 1
+        elif k == ":test":
+            x, i = parse_xtest(t, i + 1)
+            ops.append(("test", x))
+        elif k in (":run", ":runner"):
+            j = i + 1
+            rep = None
+            if k == ":runner":
+                rep = t[j]
+                j += 1
+            n = int(t[j], 16)
+            j += 1
+            xs = []
+            for _ in range(n):
+                x, j = parse_xtest(t, j)
+                xs.append(x)
+            ops.append(("run", xs) if k == ":run" else ("runner", rep, xs))
+            i = j
+        else:
+            raise ValueError("op " + k)
+    return ops
+
+
+def fmt_xtest(ph):
+    return " ".join(("%x " % len(p) + " ".join(" ".join(s) for s in p)).strip() for p in ph)
+
+
+def fmt_op(o):
+    k = o[0]
+    if k == "inst":
+        return ":inst %s %s" % (o[1], o[2])
+    if k == "act":
+        return (":act %s %s %x " % (o[1], o[2], len(o[3])) + " ".join(" ".join(a) for a in o[3])).strip()
+    if k in ("en", "dis", "rm"):
+        return ":%s %s" % (k, o[1])
+    if k == "reset":
+        return ":reset"
+    if k == "test":
+        return ":test " + fmt_xtest(o[1])
+    if k == "run":
+        return (":run %x " % len(o[1]) + " ".join(fmt_xtest(x) for x in o[1])).strip()
+    return (":runner %s %x " % (o[1], len(o[2])) + " ".join(fmt_xtest(x) for x in o[2])).strip()
+
+
+def fmt(ops):
+    return " ".join(fmt_op(o) for o in ops)
+
+
+# ----------------------------------------------------------------------------- textbook registry (generator-side mirror of `valid`)
+class Plug:
+    __slots__ = ("id", "name", "kind", "on", "role")
+
+    def __init__(self, i, name, kind, role=None):
+        self.id, self.name, self.kind, self.on, self.role = i, name, kind, True, role   # role: None | ("act", post, acts) | "runner"
+
+    def acts(self):
+        return self.role[2] if isinstance(self.role, tuple) else []
+
+
+def keeps(a, x):
+    if a[0] == ":ai":
+        return True
+    if a[0] == ":ar":
+        return int(a[1], 16) != x.name
+    if a[0] in (":ae", ":ad"):
+        return int(a[1], 16) != x.id
+    return False
+
+
+class Reg:
+    """used only to keep generated scenarios valid and to word signatures; never to judge"""
 
     def __init__(self):
-        self.c = []   # [id, name, kind, on] newest first
+        self.c = []      # newest first
         self.nx = 0
+        self.names = []  # (id, name) of every plugin created
 
-    def inst(self, name, kind):
-        self.c.insert(0, [self.nx, name, kind, True])
+    def install(self, name, kind, role=None):
+        p = Plug(self.nx, name, kind, role)
+        self.c.insert(0, p)
+        self.names.append((self.nx, name))
         self.nx += 1
-        return ":inst %x %x" % (name, kind)
+        return p
 
-    def on(self, i, b):
-        for p in self.c:
-            if p[0] == i:
-                p[3] = b
-        return "%s %x" % (":en" if b else ":dis", i)
-
-    def rm(self, name):
-        self.c = [p for p in self.c if p[1] != name]
-        return ":rm %x" % name
-
-    def reset(self):
+    def act(self, a):
+        """apply one action; returns the ids it names"""
+        k = a[0]
+        if k == ":ai":
+            self.install(int(a[1], 16), int(a[2], 16))
+            return [self.nx - 1]
+        if k == ":ar":
+            n = int(a[1], 16)
+            self.c = [p for p in self.c if p.name != n]
+            return [i for i, m in self.names if m == n]
+        if k in (":ae", ":ad"):
+            i = int(a[1], 16)
+            for p in self.c:
+                if p.id == i:
+                    p.on = (k == ":ae")
+            return [i]
         self.c = []
-        return ":reset"
+        return [i for i, _ in self.names]
 
     def sp(self):
-        return any(p[2] == 1 and p[3] for p in self.c)
+        return any(p.kind == 1 and p.on for p in self.c)
+
+    # --- one test
+    @staticmethod
+    def stmt_acts(x):
+        return [s for ph in x for s in ph if s[0] in ACTS]
+
+    @staticmethod
+    def has_set(x):
+        return any(s[0] == ":set" for ph in x for s in ph)
+
+    @staticmethod
+    def executed(x):
+        """the actions the statements perform (those in front of the statement that leaves the phase)"""
+        out = []
+        n = 0
+        ok_setup = True
+        for pi, ph in enumerate(x):
+            if pi == 1 and not ok_setup:
+                continue
+            for s in ph:
+                if s[0] == ":set":
+                    if n >= MAX_SET:
+                        if pi == 0:
+                            ok_setup = False
+                        break
+                    n += 1
+                elif s[0] in ABORTS:
+                    if pi == 0:
+                        ok_setup = False
+                    break
+                elif s[0] in ACTS:
+                    out.append(s)
+        return out
+
+    def test_ok(self, x):
+        for ph in x:
+            for s in ph:
+                if s[0] in (":set", ":wr") and not (int(s[1], 16) < POOL and int(s[2], 16) < (1 << 64)):
+                    return False
+        sa = self.stmt_acts(x)
+        for p in self.c:
+            if isinstance(p.role, tuple):
+                if not all(keeps(a, p) for a in sa):
+                    return False
+                for y in self.c:
+                    if y.id != p.id and not all(keeps(a, p) for a in y.acts()):
+                        return False
+                if not all(keeps(a, p) for a in p.acts()[:-1]):
+                    return False
+        if self.has_set(x):
+            alla = sa + [a for y in self.c for a in y.acts()]
+            if any(a[0] == ":ai" and int(a[2], 16) == 1 for a in alla):
+                return False
+            if not any(p.on and p.kind == 1 and all(keeps(a, p) for a in alla) for p in self.c):
+                return False
+        return True
+
+    def run_test(self, x):
+        """apply the test's actions (the test is assumed valid); returns (ids named, enabled logging ids at the start)"""
+        start = [p.id for p in self.c if p.on and p.role != "runner"]
+        pre = [a for p in self.c if p.on and isinstance(p.role, tuple) and not int(p.role[1]) for a in p.role[2]]
+        post = [a for p in reversed(self.c) if p.on and isinstance(p.role, tuple) and int(p.role[1]) for a in p.role[2]]
+        named = []
+        for a in pre + self.executed(x) + post:
+            named += self.act(a)
+        return named, start
 
 
-def phase(rng, nset, nwr, targets, abort_p):
+def simulate(ops):
+    """-> (valid, trace) ; trace = per op what the textbook expects (used by signature)"""
+    r = Reg()
+    trace = []
+    for idx, o in enumerate(ops):
+        k = o[0]
+        if k == "inst":
+            r.install(int(o[1], 16), int(o[2], 16))
+        elif k == "act":
+            r.install(int(o[1], 16), 0, ("act", int(o[2], 16), o[3]))
+        elif k in ("en", "dis"):
+            r.act((":ae" if k == "en" else ":ad", o[1]))
+        elif k == "rm":
+            n = len(r.c)
+            pos = [i for i, p in enumerate(r.c) if p.name == int(o[1], 16)]
+            r.act((":ar", o[1]))
+            trace.append(("c", [p.id for p in r.c], "chain after :rm wrong (chain of %d, named plugin at %s)" % (n, pos)))
+        elif k == "reset":
+            r.act((":az",))
+            trace.append(("c", [], "chain after :reset wrong"))
+        else:
+            xs = [o[1]] if k == "test" else (o[1] if k == "run" else o[2] * int(o[1], 16))
+            if k == "runner":
+                if int(o[1], 16) < 1:
+                    return False, trace
+                r.install(RUNNER_NAME, 1, "runner")
+            for j, x in enumerate(xs):
+                if not r.test_ok(x):
+                    return False, trace
+                first = j == 0
+                named, start = r.run_test(x)
+                vis = [i for i in start if i not in named]
+                nset = sum(1 for ph in x for s in ph if s[0] == ":set")
+                trace.append(("t", vis, k, j, bool(named), nset))
+            if k == "runner":
+                amb = any(p.name == RUNNER_NAME and p.role != "runner" for p in r.c)
+                if amb and idx + 1 < len(ops) and ops[idx + 1][0] != "reset":
+                    return False, trace
+                r.act((":ar", "%x" % RUNNER_NAME))
+            if k != "test":
+                trace.append(("c", [p.id for p in r.c], "chain after the %s wrong" % ("run" if k == "run" else "runner")))
+    return True, trace
+
+
+def py_valid(s):
+    try:
+        return simulate(parse(s))[0]
+    except Exception:
+        return False
+
+
+# ----------------------------------------------------------------------------- generation: pointer statements
+def phase_stmts(rng, nset, nwr, targets, abort_p):
     ops = [":set"] * nset + [":wr"] * nwr
     rng.shuffle(ops)
     out = []
     for k in ops:
-        out.append("%s %x %x" % (k, rng.choice(targets), rng.choice([0, 1, rng.randrange(1 << 12), rng.randrange(1 << 48), (1 << 64) - 1])))
-    n = len(out)
+        out.append((k, "%x" % rng.choice(targets), "%x" % rng.choice([0, 1, rng.randrange(1 << 12), rng.randrange(1 << 48), (1 << 64) - 1])))
     if rng.random() < abort_p:
-        out.insert(rng.randrange(n + 1), rng.choice(ABORTS))
-        n += 1
-    return "%x %s" % (n, " ".join(out)) if n else "0"
+        out.insert(rng.randrange(len(out) + 1), (rng.choice(ABORTS),))
+    return out
 
 
-def gen_test(rng, with_sets):
+def gen_ptest(rng, with_sets, small=False):
+    """a test of pointer statements only -> [setup, body, teardown]"""
     if with_sets:
         c = rng.random()
-        if c < 0.35:
+        if small:
+            total = rng.randrange(0, 5) if c < 0.9 else rng.choice([MAX_SET, MAX_SET + 1])
+        elif c < 0.35:
             total = rng.choice([MAX_SET - 1, MAX_SET, MAX_SET + 1, MAX_SET + 2, MAX_SET + 4])
         elif c < 0.6:
             total = rng.randrange(0, 6)
@@ -87,87 +371,301 @@ def gen_test(rng, with_sets):
     c_ = rng.randrange(total - a + 1) if rng.random() < 0.3 else 0
     b = total - a - c_
     ap = 0.25
-    return ":test " + " ".join([phase(rng, a, rng.randrange(0, 4), targets, ap), phase(rng, b, rng.randrange(0, 5), targets, ap),
-                                phase(rng, c_, rng.randrange(0, 3), targets, ap)])
+    nw = (lambda k: rng.randrange(0, 2)) if small else (lambda k: rng.randrange(0, k))
+    return [phase_stmts(rng, a, nw(4), targets, ap), phase_stmts(rng, b, nw(5), targets, ap), phase_stmts(rng, c_, nw(3), targets, ap)]
 
 
 def pointer_session(rng):
-    ch = Chain()
+    r = Reg()
     ops = []
     k = rng.randrange(0, 4)
     pos = rng.randrange(k + 1)
     for i in range(k + 1):
-        ops.append(ch.inst(i + 1, 1 if i == pos else (1 if rng.random() < 0.1 else 0)))
-    for p in list(ch.c):
-        if p[2] == 0 and rng.random() < 0.3:
-            ops.append(ch.on(p[0], False))
+        kind = 1 if i == pos else (1 if rng.random() < 0.1 else 0)
+        r.install(i + 1, kind)
+        ops.append(("inst", "%x" % (i + 1), "%x" % kind))
+    for p in list(r.c):
+        if p.kind == 0 and rng.random() < 0.3:
+            p.on = False
+            ops.append(("dis", "%x" % p.id))
     for _ in range(rng.randrange(1, 7)):
         if rng.random() < 0.12:     # toggle the SetPointerPlugin between tests
-            sp = [p for p in ch.c if p[2] == 1]
+            sp = [p for p in r.c if p.kind == 1]
             if sp:
                 p = rng.choice(sp)
-                ops.append(ch.on(p[0], not p[3]))
-        ops.append(gen_test(rng, ch.sp()))
-    return " ".join(ops)
-
-
-def order_test(rng, ch):
-    return gen_test(rng, ch.sp() and rng.random() < 0.3)
+                p.on = not p.on
+                ops.append(("en" if p.on else "dis", "%x" % p.id))
+        ops.append(("test", gen_ptest(rng, r.sp())))
+    return fmt(ops)
 
 
 def exhaustive_removals():
     out = []
     for n in range(0, 7):
         for pos in range(n + 1):       # pos == n: a name that is not installed
-            ch = Chain()
-            ops = [ch.inst(i + 1, 0) for i in range(n)]
+            ops = [":inst %x 0" % (i + 1) for i in range(n)]
             name = (n - pos) if pos < n else 0x63   # chain is newest first: position pos from the head has name n - pos
-            ops.append(ch.rm(name))
+            ops.append(":rm %x" % name)
             ops.append(":test 0 0 0")
             out.append(" ".join(ops))
     # every enabled pattern for chains up to 5
     for n in range(0, 6):
         for mask in range(1 << n):
-            ch = Chain()
-            ops = [ch.inst(i + 1, 0) for i in range(n)]
-            ops += [ch.on(i, False) for i in range(n) if not (mask >> i) & 1]
+            ops = [":inst %x 0" % (i + 1) for i in range(n)]
+            ops += [":dis %x" % i for i in range(n) if not (mask >> i) & 1]
             ops.append(":test 0 0 0")
             out.append(" ".join(ops))
     return out
 
 
 def chain_session(rng):
-    ch = Chain()
+    r = Reg()
     ops = []
     names = list(range(1, 9))
     dup = rng.random() < 0.2
     for _ in range(rng.randrange(0, 8)):
-        ops.append(ch.inst(rng.choice(names[:3]) if dup else names.pop(rng.randrange(len(names))), 1 if rng.random() < 0.2 else 0))
+        n = rng.choice(names[:3]) if dup else names.pop(rng.randrange(len(names)))
+        kind = 1 if rng.random() < 0.2 else 0
+        r.install(n, kind)
+        ops.append(("inst", "%x" % n, "%x" % kind))
     for _ in range(rng.randrange(1, 9)):
         c = rng.random()
-        if c < 0.35 and ch.c:
-            ops.append(ch.rm(rng.choice(ch.c)[1]))
+        if c < 0.35 and r.c:
+            n = rng.choice(r.c).name
+            r.act((":ar", "%x" % n))
+            ops.append(("rm", "%x" % n))
         elif c < 0.42:
-            ops.append(ch.rm(rng.randrange(1, 12)))
-        elif c < 0.6 and ch.nx:
-            ops.append(ch.on(rng.randrange(ch.nx + 1), rng.random() < 0.5))
+            n = rng.randrange(1, 12)
+            r.act((":ar", "%x" % n))
+            ops.append(("rm", "%x" % n))
+        elif c < 0.6 and r.nx:
+            i = rng.randrange(r.nx + 1)
+            b = rng.random() < 0.5
+            r.act((":ae" if b else ":ad", "%x" % i))
+            ops.append(("en" if b else "dis", "%x" % i))
         elif c < 0.65:
-            ops.append(ch.reset())
+            r.act((":az",))
+            ops.append(("reset",))
         elif c < 0.8:
-            ops.append(ch.inst(rng.randrange(1, 12), 1 if rng.random() < 0.3 else 0))
+            n = rng.randrange(1, 12)
+            kind = 1 if rng.random() < 0.3 else 0
+            r.install(n, kind)
+            ops.append(("inst", "%x" % n, "%x" % kind))
         else:
-            ops.append(order_test(rng, ch))
-    ops.append(order_test(rng, ch))
-    return " ".join(ops)
+            ops.append(("test", gen_ptest(rng, r.sp() and rng.random() < 0.3)))
+    ops.append(("test", gen_ptest(rng, r.sp() and rng.random() < 0.3)))
+    return fmt(ops)
+
+
+# ----------------------------------------------------------------------------- generation: actions inside runs
+def pick_action(rng, r, avoid_ids=(), avoid_names=(), allow_sp=True):
+    """an action aimed at the chain as it stands: the head, a middle one, the last, an absent name, a new head ..."""
+    c = rng.random()
+    cand = [p for p in r.c if p.id not in avoid_ids and p.name not in avoid_names]
+    if c < 0.4 and cand:
+        w = rng.random()
+        p = cand[0] if w < 0.45 else (cand[-1] if w < 0.6 else rng.choice(cand))
+        return (":ar", "%x" % p.name)
+    if c < 0.45:
+        return (":ar", "%x" % rng.choice([0x63, RUNNER_NAME, rng.randrange(1, 12)]))
+    if c < 0.75:
+        w = rng.random()
+        n = rng.randrange(0x20, 0x30) if w < 0.6 else (rng.choice(r.c).name if r.c and w < 0.85 else RUNNER_NAME)
+        return (":ai", "%x" % n, "1" if allow_sp and rng.random() < 0.2 else "0")
+    if c < 0.95:
+        ids = [p.id for p in cand] or [0]
+        i = rng.choice(ids) if rng.random() < 0.8 else rng.randrange(r.nx + 2)
+        return (":ae" if rng.random() < 0.4 else ":ad", "%x" % i)
+    return (":az",)
+
+
+def gen_xtest(rng, r, p_act=0.6, small=True, sets=None):
+    """a test valid on registry r (r is advanced by the test's actions)"""
+    for _ in range(8):
+        want_sets = r.sp() and (rng.random() < 0.6 if sets is None else sets)
+        x = gen_ptest(rng, want_sets, small=small)
+        if rng.random() < p_act:
+            actors = [p for p in r.c if isinstance(p.role, tuple)]
+            avoid_ids = [p.id for p in actors]
+            avoid_names = [p.name for p in actors]
+            if want_sets:
+                sps = [p for p in r.c if p.kind == 1 and p.on]
+                if sps:
+                    s = rng.choice(sps)
+                    avoid_ids.append(s.id)
+                    avoid_names.append(s.name)
+            for _k in range(rng.choice([1, 1, 1, 2, 3])):
+                ph = x[rng.choice([0, 1, 1, 1, 2])]
+                ph.insert(rng.randrange(len(ph) + 1), pick_action(rng, r, avoid_ids, avoid_names, allow_sp=not want_sets))
+        if r.test_ok(x):
+            r.run_test(x)
+            return x
+    x = [[], [], []]
+    if not r.test_ok(x):       # cannot happen with generated actors; keeps the generator total
+        raise ValueError("no valid test")
+    r.run_test(x)
+    return x
+
+
+def gen_actor(rng, r, name):
+    """an acting plugin: names others (never another acting plugin), itself only last"""
+    post = rng.random() < 0.5
+    actors = [p for p in r.c if isinstance(p.role, tuple)]
+    acts = []
+    for _ in range(rng.choice([0, 1, 1, 2])):
+        acts.append(pick_action(rng, r, [p.id for p in actors], [p.name for p in actors] + [name], allow_sp=False))
+        if acts[-1] == (":az",) or (acts[-1][0] == ":ar" and int(acts[-1][1], 16) == name):
+            acts.pop()
+    w = rng.random()
+    if w < 0.45:
+        acts.append((":ar", "%x" % name))            # removes itself from inside its own action
+    elif w < 0.6:
+        acts.append((":ad", "%x" % r.nx))            # disables itself
+    elif w < 0.65 and not actors:
+        acts.append((":az",))
+    return ("act", "%x" % name, "1" if post else "0", acts)
+
+
+def setup_chain(rng, r, ops, n, p_actor=0.25, p_sp=0.3, names=None):
+    pool = names or list(range(1, 12))
+    for _ in range(n):
+        name = rng.choice(pool)
+        if rng.random() < p_actor and not any(p.name == name for p in r.c):
+            o = gen_actor(rng, r, name)
+            saved = (list(r.c), r.nx, list(r.names))
+            r.install(name, 0, ("act", int(o[2], 16), o[3]))
+            if r.test_ok([[], [], []]):      # the acting plugins do not name one another
+                ops.append(o)
+                continue
+            r.c, r.nx, r.names = saved
+        kind = 1 if rng.random() < p_sp else 0
+        r.install(name, kind)
+        ops.append(("inst", "%x" % name, "%x" % kind))
+    for p in list(r.c):
+        if rng.random() < 0.15:
+            p.on = False
+            ops.append(("dis", "%x" % p.id))
+
+
+def run_session(rng):
+    r = Reg()
+    ops = []
+    setup_chain(rng, r, ops, rng.randrange(1, 6))
+    for _ in range(rng.choice([1, 1, 2])):
+        xs = [gen_xtest(rng, r) for _ in range(rng.randrange(2, 7))]
+        ops.append(("run", xs))
+        if rng.random() < 0.4:
+            setup_chain(rng, r, ops, rng.randrange(0, 3))
+    if rng.random() < 0.3:
+        ops.append(("test", gen_xtest(rng, r, p_act=0.2)))
+    return fmt(ops)
+
+
+def exhaustive_runs():
+    """every chain of 1-4 plugins x (remove position / install a new head) x from where, each followed by further tests"""
+    out = []
+    quiet = [[], [], []]
+    for n in range(1, 5):
+        targets = [("rm", pos) for pos in range(n)] + [("ai", None)]
+        for what, pos in targets:
+            a = (":ar", "%x" % (n - pos)) if what == "rm" else (":ai", "20", "0")
+            for where in ("setup", "body", "teardown", "pre", "post"):
+                if where in ("pre", "post"):
+                    ph = "1" if where == "post" else "0"
+                    variants = []
+                    if what == "rm":
+                        # the plugin removes itself from inside its own action
+                        variants.append([("act", "%x" % (i + 1), ph, [a]) if i + 1 == n - pos else ("inst", "%x" % (i + 1), "0") for i in range(n)])
+                    # another plugin (the head, or the first installed) does it, and stays / then removes itself
+                    base = [("inst", "%x" % (i + 1), "0") for i in range(n)]
+                    variants.append(base + [("act", "30", ph, [a])])
+                    variants.append(base + [("act", "30", ph, [a, (":ar", "30")])])
+                    variants.append([("act", "30", ph, [a])] + base)
+                    for v in variants:
+                        out.append(fmt(v + [("run", [quiet, quiet, quiet])]))
+                else:
+                    ops = [("inst", "%x" % (i + 1), "0") for i in range(n)]
+                    t1 = [[a] if where == "setup" else [], [a] if where == "body" else [], [a] if where == "teardown" else []]
+                    out.append(fmt(ops + [("run", [quiet, t1, quiet, quiet])]))
+    return out
+
+
+# ----------------------------------------------------------------------------- generation: the command line runner
+def runner_tests(rng, r, n):
+    return [gen_xtest(rng, r, p_act=0.15, small=rng.random() < 0.75, sets=rng.random() < 0.85) for _ in range(n)]
+
+
+def runner_session(rng):
+    r = Reg()
+    ops = []
+    names = [RUNNER_NAME, RUNNER_NAME, 1, 2, 3, 0xa1]
+    setup_chain(rng, r, ops, rng.randrange(0, 5), p_actor=0.1, p_sp=0.4, names=names)
+    for p in list(r.c):
+        if p.name == RUNNER_NAME and p.on and rng.random() < 0.4:
+            p.on = False
+            ops.append(("dis", "%x" % p.id))
+    for round_ in range(rng.choice([1, 1, 2])):
+        rep = rng.choice([1, 1, 1, 2, 3])
+        r.install(RUNNER_NAME, 1, "runner")
+        xs = runner_tests(rng, r, rng.randrange(1, 5))
+        ok = True
+        for _ in range(rep - 1):       # the repetitions see the chain the actions of the earlier ones left
+            for x in xs:
+                if not r.test_ok(x):
+                    ok = False
+                    break
+                r.run_test(x)
+            if not ok:
+                break
+        if not ok:
+            return None
+        ops.append(("runner", "%x" % rep, xs))
+        amb = any(p.name == RUNNER_NAME and p.role != "runner" for p in r.c)
+        r.act((":ar", "%x" % RUNNER_NAME))
+        if amb:
+            if rng.random() < 0.5:
+                break
+            r.act((":az",))
+            ops.append(("reset",))
+        if rng.random() < 0.5:
+            setup_chain(rng, r, ops, rng.randrange(0, 3), p_actor=0.0, p_sp=0.4, names=names)
+        if rng.random() < 0.3:
+            ops.append(("test", gen_xtest(rng, r, p_act=0.2)))
+    return fmt(ops)
+
+
+def exhaustive_runner():
+    """registries of 0-2 plugins: name (the runner's / another) x pointer plugin or not x enabled or not, then the runner over
+    a passing test that redirects twice, a failing one, and one that only looks"""
+    out = []
+    variants = [(nm, kind, on) for nm in (RUNNER_NAME, 5) for kind in (0, 1) for on in (1, 0)]
+    tests = "0 3 :set 0 5 :set 1 6 :set 0 7 0 0 2 :set 1 8 :fail 0 0 0 0"
+    chains = [[]] + [[v] for v in variants] + [[v, w] for v in variants for w in variants]
+    for ch in chains:
+        ops = []
+        for i, (nm, kind, on) in enumerate(ch):
+            ops.append(":inst %x %x" % (nm, kind))
+        for i, (nm, kind, on) in enumerate(ch):
+            if not on:
+                ops.append(":dis %x" % i)
+        ops.append(":runner 1 3 " + tests)
+        out.append(" ".join(ops))
+    return out
 
 
 def generate(tier, rng):
-    out = exhaustive_removals()
+    out = exhaustive_removals() + exhaustive_runs() + exhaustive_runner()
     n = 1500 if tier == "quick" else 20000
     for _ in range(n):
         out.append(pointer_session(rng))
     for _ in range(n):
         out.append(chain_session(rng))
+    for _ in range(n):
+        out.append(run_session(rng))
+    for _ in range(n):
+        s = runner_session(rng)
+        if s:
+            out.append(s)
     return out
 
 
@@ -175,9 +673,11 @@ def nontrivial(s):
     t = s.split()
     if ":set" in t:
         return True
+    if (":run" in t or ":runner" in t) and any(a in t for a in ACTS):
+        return True
     n = 0
     for i, x in enumerate(t):
-        if x == ":inst":
+        if x in (":inst", ":act"):
             n += 1
         if x == ":rm" and n >= 2:
             return True
@@ -189,28 +689,31 @@ def classify(s):
     lab = []
     nset = t.count(":set")
     lab.append("sets:" + ("0" if nset == 0 else "1-30" if nset <= 30 else "31-33" if nset <= 33 else ">33"))
-    lab.append("tests:%d" % t.count(":test"))
-    lab.append("plugins:%d" % t.count(":inst"))
+    lab.append("plugins:%d" % (t.count(":inst") + t.count(":act")))
     if ":rm" in t:
         lab.append("removal")
     if any(a in t for a in ABORTS):
         lab.append("abort")
     if ":dis" in t:
         lab.append("disabled")
+    if ":run" in t:
+        lab.append("run")
+    if ":runner" in t:
+        lab.append("runner")
+        try:
+            ops = parse(s)
+            i = [k for k, o in enumerate(ops) if o[0] == "runner"][0]
+            pre = [o for o in ops[:i] if o[0] == "inst"]
+            if any(int(o[1], 16) == RUNNER_NAME for o in pre):
+                lab.append("runner:registry-holds-the-runner's-plugin-name")
+        except Exception:
+            pass
+    if ":act" in t:
+        lab.append("acting-plugin")
+    for a, l in ((":ar", "in-run-remove"), (":ai", "in-run-install"), (":ae", "in-run-enable"), (":ad", "in-run-disable"), (":az", "in-run-reset")):
+        if a in t:
+            lab.append(l)
     return lab
-
-
-def split_ops(s):
-    t = s.split()
-    ops, cur = [], []
-    for x in t:
-        if x in (":inst", ":en", ":dis", ":rm", ":reset", ":test") and cur:
-            ops.append(cur)
-            cur = []
-        cur.append(x)
-    if cur:
-        ops.append(cur)
-    return ops
 
 
 def items(o):
@@ -229,110 +732,97 @@ def signature(s, o):
     """coarse: which part of the observation first departs from the textbook expectation"""
     if o.startswith("!"):
         return "crash " + o[:60]
-    ch = Chain()
-    its = items(o)
-    k = 0
     try:
-        for op in split_ops(s):
-            if op[0] == ":inst":
-                ch.inst(int(op[1], 16), int(op[2], 16))
-            elif op[0] in (":en", ":dis"):
-                ch.on(int(op[1], 16), op[0] == ":en")
-            elif op[0] in (":rm", ":reset"):
-                n = len(ch.c)
-                pos = [i for i, p in enumerate(ch.c) if op[0] == ":rm" and p[1] == int(op[1], 16)]
-                ch.rm(int(op[1], 16)) if op[0] == ":rm" else ch.reset()
-                it = its[k]
-                k += 1
-                if it[0] != ":c" or [int(x, 16) for x in it[2:]] != [p[0] for p in ch.c]:
-                    return "chain after %s wrong (chain of %d, named plugin at %s)" % (op[0], n, pos)
-            elif op[0] == ":test":
-                it = its[k]
-                k += 1
-                en = [p[0] for p in ch.c if p[3]]
+        ok, trace = simulate(parse(s))
+        its = items(o)
+        later = None
+        for k, e in enumerate(trace):
+            if k >= len(its):
+                return "observation too short"
+            it = its[k]
+            if e[0] == "c":
+                if it[0] != ":c" or [int(x, 16) for x in it[2:]] != e[1]:
+                    return e[2]
+            else:
+                _, vis, kind, j, noisy, nset = e
+                where = {"test": "", "run": " in a run", "runner": " under the runner"}[kind]
+                if it[0] != ":t":
+                    return "malformed observation"
                 npre = int(it[2], 16)
                 pre = [int(x, 16) for x in it[3:3 + npre]]
                 npost = int(it[3 + npre], 16)
                 post = [int(x, 16) for x in it[4 + npre:4 + npre + npost]]
-                if pre != en:
-                    return "pre-action order wrong"
-                if post != en[::-1]:
-                    return "post-action order wrong"
-                nset = op.count(":set")
-                return_later = "pointer values / verdict wrong (%s redirections)" % ("<= limit" if nset <= MAX_SET else "> limit")
+                if pre != vis:
+                    return "pre-action order wrong" + where
+                if post != vis[::-1]:
+                    return "post-action order wrong" + where
+                if later is None:
+                    later = "pointer values / verdict wrong (%s redirections)%s" % ("<= limit" if nset <= MAX_SET else "> limit", where if kind == "runner" else "")
+        if len(its) != len(trace):
+            return "observation too long"
+        return later or "observation wrong"
     except Exception:
         return "malformed observation"
-    return locals().get("return_later", "observation wrong")
 
 
-def parse_test(op):
-    """[':test', n, stmts.., n, stmts.., n, stmts..] -> three lists of statement token lists"""
-    i = 1
-    ph = []
-    for _ in range(3):
-        n = int(op[i], 16)
-        i += 1
-        st = []
-        for _ in range(n):
-            if op[i] in (":set", ":wr"):
-                st.append(op[i:i + 3])
-                i += 3
-            else:
-                st.append(op[i:i + 1])
-                i += 1
-        ph.append(st)
-    return ph
-
-
-def fmt_test(ph):
-    return ":test " + " ".join(("%x " % len(p) + " ".join(" ".join(s) for s in p)).strip() for p in ph)
-
-
-def py_valid(s):
-    ch = Chain()
-    for op in split_ops(s):
-        if op[0] == ":inst":
-            ch.inst(int(op[1], 16), int(op[2], 16))
-        elif op[0] in (":en", ":dis"):
-            ch.on(int(op[1], 16), op[0] == ":en")
-        elif op[0] == ":rm":
-            ch.rm(int(op[1], 16))
-        elif op[0] == ":reset":
-            ch.reset()
-        elif ":set" in op and not ch.sp():
-            return False
-    return True
-
-
+# ----------------------------------------------------------------------------- shrinking
 def shrink(s):
+    seen = set()
     for c in shrink_all(s):
-        if c.strip() and py_valid(c):
+        if c.strip() and c not in seen and py_valid(c):
+            seen.add(c)
             yield c
 
 
+def shrink_xtest(x):
+    for p in range(3):
+        for k in range(len(x[p])):
+            x2 = [list(ph) for ph in x]
+            del x2[p][k]
+            yield x2
+
+
 def shrink_all(s):
-    ops = split_ops(s)
+    try:
+        ops = parse(s)
+    except Exception:
+        return
     for i in range(len(ops)):
-        yield " ".join(" ".join(o) for j, o in enumerate(ops) if j != i)
-    for i, op in enumerate(ops):
-        if op[0] != ":test":
-            continue
-        ph = parse_test(op)
-        for p in range(3):
-            for k in range(len(ph[p])):
-                ph2 = [list(x) for x in ph]
-                del ph2[p][k]
-                yield " ".join(" ".join(o) if j != i else fmt_test(ph2) for j, o in enumerate(ops))
+        yield fmt(ops[:i] + ops[i + 1:])
+    for i, o in enumerate(ops):
+        if o[0] == "test":
+            for x2 in shrink_xtest(o[1]):
+                yield fmt(ops[:i] + [("test", x2)] + ops[i + 1:])
+        elif o[0] in ("run", "runner"):
+            xs = o[1] if o[0] == "run" else o[2]
+            mk = (lambda l: ("run", l)) if o[0] == "run" else (lambda l, o=o: ("runner", o[1], l))
+            for j in range(len(xs)):
+                yield fmt(ops[:i] + [mk(xs[:j] + xs[j + 1:])] + ops[i + 1:])
+            if o[0] == "runner" and int(o[1], 16) > 1:
+                yield fmt(ops[:i] + [("runner", "1", xs)] + ops[i + 1:])
+            for j in range(len(xs)):
+                for x2 in shrink_xtest(xs[j]):
+                    yield fmt(ops[:i] + [mk(xs[:j] + [x2] + xs[j + 1:])] + ops[i + 1:])
+        elif o[0] == "act":
+            for j in range(len(o[3])):
+                yield fmt(ops[:i] + [("act", o[1], o[2], o[3][:j] + o[3][j + 1:])] + ops[i + 1:])
 
 
 LEVEL_TEXT = ("Machine-checked (Coq) theorems over an executable model of CppUTestStore / SetPointerPlugin::postTestAction (bounded table, "
-              "restore in reverse), Utest::run's setup/body/teardown control flow, the plugin chain's pre/post recursion with enable flags and "
-              "TestRegistry install/remove/reset: every redirected pointer is back at its pre-test value for all statement sequences and outcomes, "
-              "the table is empty before every test, the limit fails the test without writing past the table, post order = reverse pre order, "
-              "removal by name = the chain without the plugins of that name. Tied to the code by a differential run of the extracted model against "
-              "a real TestRegistry with recording plugins and scripted tests, with the extracted model-free spec judging the implementation.")
+              "restore in reverse), Utest::run's setup/body/teardown control flow, the plugin chain's pre/post recursion with enable flags, "
+              "TestRegistry install/remove/reset, whole runs (runAllTests: every test takes the chain as the actions of the run so far have "
+              "left it; test statements and plugins' pre/post actions install, remove, enable, disable plugins, also themselves) and "
+              "CommandLineTestRunner::runAllTestsMain on registries that already hold arbitrary plugins: every redirected pointer is back at "
+              "its pre-test value for all statement sequences and outcomes, the table is empty before every test, the limit fails the test "
+              "without writing past the table, post order = reverse pre order, removal by name = the chain without the plugins of that name "
+              "(from the next test of the same run on), under the runner every pointer is restored whatever the registry held. Tied to the "
+              "code by a differential run of the extracted model against a real TestRegistry / CommandLineTestRunner with recording and "
+              "acting plugins and scripted tests, with the extracted model-free spec judging the implementation.")
 LEVEL_NOTE = ("Partial for memory safety: the model's table is a bounded list, real accesses to the static table are seen only by ASan. Trusted: Coq "
               "kernel, extraction, harness, generator. Modelled not verified: the C++ itself; exceptions/longjmp by their contract (a failing "
-              "statement leaves the phase). MAX_SET is re-read from TestPlugin.h on every run.")
+              "statement leaves the phase). Inside the test in which an action names a plugin that plugin's own log entries are not observed "
+              "(the model walks the chain as it stood at the test's start, a plugin taking its turn if still installed and enabled). The static "
+              "CommandLineTestRunner::RunAllTests wrapper (memory-leak plugin, console output) is not driven, runAllTestsMain is. "
+              "MAX_SET is re-read from TestPlugin.h on every run.")
 TECHNIQUE = "Coq proof over hand-written executable model + extracted-model/implementation correspondence check (differential, exhaustive small chains)"
 READY = True
